@@ -8,7 +8,9 @@
     NULL or an i64 ([val := option Z]); [RowNormalizer::normalize_and_validate] is then the
     identity on well-typed rows and only its column-count / NOT NULL checks remain. *)
 From Coq Require Import List ZArith Bool Arith Lia.
+From VibeSQL Require Import Generated.Consts.
 Import ListNotations.
+Local Close Scope Z_scope.   (* Consts.v opens it; this file's numerals are nat *)
 
 (* ------------------------------------------------------------------------------------ *)
 (** * Values, rows, keys *)
@@ -160,7 +162,8 @@ Record tracker := { tr_last : option key; tr_mode : bool; tr_streak : nat }.
 
 Definition tracker_new : tracker := {| tr_last := None; tr_mode := false; tr_streak := 0 |}.
 
-Definition APPEND_MODE_THRESHOLD : nat := 3.
+(** re-read from append_mode.rs on every run (Generated/Consts.v) *)
+Definition APPEND_MODE_THRESHOLD : nat := Z.to_nat c10_append_mode_threshold.
 
 (** [pk_values > last_pk.as_slice()]: slice PartialOrd = lexicographic over
     SqlValue::partial_cmp, which is None as soon as a NULL is involved. *)
